@@ -17,3 +17,42 @@ Theorem C05_closed_round_offers_nothing :
   forall g i, p_allowed (get_p (round_closed g) i) = [].
 Proof. exact round_closed_no_offers. Qed.
 Print Assumptions C05_closed_round_offers_nothing.
+
+(* the hand ends at once when one non-folded player remains: Next goes straight to the settlement, no
+   further card is dealt *)
+From PF Require Import ProofsInv ProofsCards ProofsPhase.
+Theorem C05_last_man_ends_the_hand :
+  forall g, st_event (g_st g) = EvRoundClosed -> st_round (g_st g) <> RNone ->
+    let g1 := reset_all_status (reset_round_status (set_last g (-1) LNext 0)) in
+    alive_count g1 = 1%nat ->
+    step g ONext = (let res := game_completed g1 in match res with (_, Panic) => (g, Panic) | x => x end) /\
+    sv (fst (game_completed g1)) = sv g.
+Proof.
+  intros g He Hr g1 Ha. split.
+  - cbn [step]. unfold do_next. rewrite He. cbn [event_eqb negb].
+    change (st_round (g_st (set_last g (-1) LNext 0))) with (st_round (g_st g)). fold g1. rewrite Ha. cbn [Nat.eqb].
+    destruct (st_round (g_st g)); [contradiction| | | |]; reflexivity.
+  - rewrite sv_game_completed. reflexivity.
+Qed.
+Print Assumptions C05_last_man_ends_the_hand.
+
+(* when fewer than two players still have chips, entering a street opens no betting round: the round is
+   closed at once and the driver is asked to move on, until the board is complete *)
+Theorem C05_no_betting_round_without_two_stacks :
+  forall g, st_round (g_st g) <> Preflop -> (movable_count g <= 1)%nat -> prepare_round g = round_closed g.
+Proof.
+  intros g Hr Hm. unfold prepare_round. destruct (st_round (g_st g)); try contradiction;
+    (replace (Nat.leb (movable_count g) 1) with true by (symmetry; apply Nat.leb_le; exact Hm)); reflexivity.
+Qed.
+Print Assumptions C05_no_betting_round_without_two_stacks.
+
+(* during a betting round the seat asked to act has not yet acted since the wager last went up *)
+Theorem C05_player_to_act_has_not_acted :
+  forall c deck g ops,
+    cfg_ok c -> length deck = length (c_deck c) -> create c deck = (g, Ok) ->
+    let s := run g ops in
+    st_event (g_st s) = EvRoundStarted -> p_acted (get_p s (st_cur (g_st s))) = false.
+Proof.
+  intros c deck g ops Hc Hl Hcr s He. apply (pi_cur s (good_phase s (Good_reachable c deck g ops Hc Hl Hcr)) He).
+Qed.
+Print Assumptions C05_player_to_act_has_not_acted.
